@@ -501,6 +501,16 @@ fn draw_reply(sw: &Swarm, w: &World, rng: &mut Rng) -> ReplySpec {
             max_next: rng.below(3) as u8,
         };
     }
+    if w.cfg.profile == "C15" && rng.chance(1, 5) && ids.len() > 1 {
+        // a reply whose first blocks are fine and whose tail is broken: the tip changes in a
+        // message that also counts an error (eager evaluation must still see the new tip)
+        return ReplySpec::HonestPoisoned {
+            max_blocks: sw.max_blocks.max(2),
+            max_next: sw.max_next,
+            poison: if rng.chance(1, 2) { BlockOffer::Garbage(rng.next_u64(), rng.below(300) as u32) } else { BlockOffer::Truncated(*rng.pick(&ids), rng.below(200) as u32) },
+            at: 1 + rng.below(2) as u8,
+        };
+    }
     if sw.fault_adapter && rng.chance(1, 7) && ids.len() > 1 {
         // the honest answer with one poisoned element: everything after it must have no effect
         let id = *rng.pick(&ids);
@@ -729,11 +739,40 @@ fn header_chain_next(sw: &mut Swarm, w: &World, rng: &mut Rng) -> Event {
                 _ => Mutation::None,
             };
             let dt = *rng.pick(&[1u32, 600, 1199, 1200, 1201, 1300, 2500]);
+            // Half of the candidates at interesting heights sit on a parent that is itself only
+            // *announced* when the candidate's header is validated (the validator then has to
+            // count announced headers into the candidate's height: retarget boundaries move).
+            let mut cand_parent = sc.a_tip;
+            let mut announced_parent = None;
+            if at_interesting && rng.chance(1, 2) {
+                let pid = next_id;
+                next_id += 1;
+                let h = sc.a_len + 1;
+                let plan = sc.period_plan[((h / 2016) as usize).min(sc.period_plan.len() - 1)];
+                sc.queue.push_back(Event::Mine(MineSpec {
+                    id: pid,
+                    parent: sc.a_tip,
+                    seed: rng.next_u64(),
+                    ntx: 0,
+                    dt: match plan {
+                        0 => 120,
+                        1 => 600,
+                        2 => 2500,
+                        _ => 1300,
+                    },
+                    difficulty: 0,
+                    special: Special::BareCoinbase,
+                    mutation: Mutation::None,
+                    remine: 0,
+                }));
+                cand_parent = pid;
+                announced_parent = Some(pid);
+            }
             let cid = next_id;
             next_id += 1;
             sc.queue.push_back(Event::Mine(MineSpec {
                 id: cid,
-                parent: sc.a_tip,
+                parent: cand_parent,
                 seed: rng.next_u64(),
                 ntx: 0,
                 dt,
@@ -743,6 +782,15 @@ fn header_chain_next(sw: &mut Swarm, w: &World, rng: &mut Rng) -> Event {
                 remine: 0,
             }));
             // first as an announced header, then as a block
+            if let Some(pid) = announced_parent {
+                sync_round(&mut sc.queue, ReplySpec::Explicit { blocks: vec![], next: vec![HeaderOffer::Header(pid), HeaderOffer::Header(cid)] });
+                sync_round(&mut sc.queue, ReplySpec::Explicit { blocks: vec![BlockOffer::Block(pid)], next: vec![] });
+                sync_round(&mut sc.queue, ReplySpec::Explicit { blocks: vec![BlockOffer::Block(cid)], next: vec![] });
+                // later candidates of this batch go on top of whatever was admitted
+                sc.a_tip = pid;
+                sc.a_len += 1;
+                break;
+            }
             sync_round(&mut sc.queue, ReplySpec::Explicit { blocks: vec![], next: vec![HeaderOffer::Header(cid)] });
             sync_round(&mut sc.queue, ReplySpec::Explicit { blocks: vec![BlockOffer::Block(cid)], next: vec![] });
         }
